@@ -579,7 +579,9 @@ class AsyncServer(base_server.BaseServer):
                     packet.CONNECT_ERROR, data=fail_reason,
                     namespace=namespace))
             await self.manager.disconnect(sid, namespace, ignore_queue=True)
-        elif not self.always_connect:
+        elif not self.always_connect and \
+                self.manager.is_connected(sid, namespace):
+            # (a connect handler may have disconnected the client itself)
             await self._send_packet(eio_sid, self.packet_class(
                 packet.CONNECT, {'sid': sid}, namespace=namespace))
 
